@@ -36,6 +36,8 @@ fn groups(tier: Tier) -> Vec<Vec<(&'static str, PropLit)>> {
         vec![("a", B(false))],
         vec![("b", I(i64::MIN + 1)), ("ab", S("x".into()))],
         vec![("a", I(0)), ("b", S("t".into())), ("A", B(true))],
+        // a raw-identifier key stands for the identifier without `r#`
+        vec![("r#type", I(5)), ("r#plain", S("p".into()))],
     ];
     if tier == Tier::Thorough {
         g.extend(vec![vec![("b", I(i64::MIN))], vec![("fn", B(true)), ("type", I(-7))], vec![("A", I(42))], vec![("ab", B(false)), ("a", S("a".into()))]]);
@@ -47,6 +49,7 @@ fn domain(s: &EnumSpec) -> bool {
     for v in &s.variants {
         let mut seen = std::collections::HashSet::new();
         for (k, l) in v.props.iter().flatten() {
+            let k = crate::spec::unraw(k).to_string();
             let t = match l {
                 PropLit::S(_) => 0,
                 PropLit::I(_) => 1,
@@ -156,6 +159,7 @@ pub fn queries(spec: &EnumSpec) -> Vec<String> {
     for v in &spec.variants {
         for (k, _) in v.props.iter().flatten() {
             push(k.clone(), &mut q);
+            push(crate::spec::unraw(k).to_string(), &mut q);
             push(k.to_uppercase(), &mut q);
             push(k.to_lowercase(), &mut q);
             push(format!("{} ", k), &mut q);
@@ -186,7 +190,7 @@ type GB<'a> = &'a mut dyn FnMut(usize, &str) -> Result<Option<bool>, String>;
 pub fn explore(ctx: &mut Ctx, gs: GS, gi: GI, gb: GB) {
     let spec = ctx.spec().clone();
     let qs = queries(&spec);
-    let declared: Vec<String> = spec.variants.iter().flat_map(|v| v.props.iter().flatten().map(|(k, _)| k.clone())).collect();
+    let declared: Vec<String> = spec.variants.iter().flat_map(|v| v.props.iter().flatten().map(|(k, _)| crate::spec::unraw(k).to_string())).collect();
     for (i, v) in spec.variants.iter().enumerate() {
         if v.props.len() > 1 {
             ctx.outcome("multi-group");
